@@ -38,7 +38,7 @@ CHECKS = {
     ),
     "C10": (
         "exhaustive enumeration of definition family x calling context x argument tuple x perturbation, executed on the real interpreter against the reference interpreter (local parameter scope, call-time evaluation)",
-        "12 numeric and 3 string definition families, 9 calling contexts, all argument tuples of a small set and 7 perturbations (globals changed after DEF, call before DEF, wrong arity, undefined function, call from direct mode) are combined exhaustively; sentinels named like parameters are printed afterwards; DEF in direct mode and three runaway recursions (OUT OF MEMORY, session survives) included.",
+        "17 numeric and 3 string definition families (parameters in every slot of nested calls and subscripts), 9 calling contexts, all argument tuples of a small set and 9 perturbations (globals changed after DEF, call before DEF, wrong arity, undefined function, call from direct mode, CLEAR between DEF and call, RUN then RUN <call line>) are combined exhaustively; sentinels named like parameters are printed afterwards; DEF in direct mode and three runaway recursions (OUT OF MEMORY, session survives) included.",
         "Line numbers of errors raised inside a function body are not compared (the manual does not attribute them).",
         "DESIGN.md §3 C10",
     ),
@@ -80,19 +80,19 @@ CHECKS = {
     ),
     "C17": (
         "exhaustive enumeration of INPUT statement forms x all reply strings up to a bounded length, executed inside a loop on the real interpreter against the reference reply parser",
-        "25 INPUT statements x every reply of length <=4 (thorough 5) over a 13-symbol alphabet (one multi-byte character), plus hand-picked and over-long replies, inside FOR..NEXT with all targets printed: prompts, capitalisation flag, REDO FROM START, stored values and loop completion must equal the reference.",
+        "25 INPUT statements x every reply of length <=4 (thorough 5) over a 14-symbol alphabet (digits, signs, E, D, &, H, quote, comma, blank, a letter, one multi-byte character), plus hand-picked and over-long replies, inside FOR..NEXT with all targets printed: prompts, capitalisation flag, REDO FROM START, stored values and loop completion must equal the reference.",
         "Reference refmodel/input.rs; values whose printed notation is not fixed are skipped.",
         "DESIGN.md §3 C17",
     ),
     "C18": (
         "exhaustive enumeration of (loop body x loop shape) programs run for 70 000 iterations, and of every pool driven past its limit, on the real interpreter",
-        "54 loop bodies covering every loopable statement kind and built-in function x 3 (thorough 5) loop shapes each run 70 000 times (more than any 65 535-entry pool: a leak of one slot per iteration must surface as OUT OF MEMORY); 90 000 array elements set and reset; nine ways past a limit must report OUT OF MEMORY, not panic, not grow without bound, and leave the session and the next program working.",
+        "54 loop bodies covering every loopable statement kind and built-in function x 3 (thorough 5) loop shapes each run 70 000 times (more than any 65 535-entry pool: a leak of one slot per iteration must surface as OUT OF MEMORY); 90 000 array elements set and reset; twelve ways past a limit (incl. programs of exactly 65 535 / 65 536 / 70 000 one-instruction statements) must report OUT OF MEMORY, not panic, not grow without bound, and leave the session and the next program working.",
         "Only leaks of at least one slot per iteration are certain to be seen; resident-set growth is a coarse threshold.",
         "DESIGN.md §3 C18",
     ),
     "C19": (
         "exhaustive enumeration of programs with one injected fault (every referencing form and list position x missing targets, unmatched WHILE/WEND placements, single-token damage of template lines) x prefixes x line-number widths, executed on the real interpreter",
-        "Every diagnostic must name the faulty line, carry a character range inside the listed text that covers exactly the missing number / the keyword, agree with the column in the message and with the LIST underline; RUN, RUN n, GOTO, GOSUB, ON..GOTO and IF..THEN n must print no line's marker and report the errors; PRINT \"D\" and direct-mode loops must still work. Exhaustive within the fault / prefix / width sets.",
+        "Every diagnostic must name the faulty line, carry a character range inside the listed text that covers exactly the missing number / the keyword, agree with the column in the message and with the LIST underline; RUN, RUN n, GOTO, GOSUB, ON..GOTO and IF..THEN n must print no line's marker and report the errors; PRINT \"D\" and direct-mode loops must still work; a clean program that is stopped (STOP, END, interrupt) and then broken by an edit must not run a line on CONT, RETURN, NEXT, GOTO, GOSUB, RUN (3 stops x 7 edits x 9 resumes x 3 follow-ups). Exhaustive within the fault / prefix / width sets.",
         "Ranges are read from Error::column() and Event::List; token-damaged lines that remain legal BASIC are counted, not judged.",
         "DESIGN.md §3 C19",
     ),
@@ -110,7 +110,7 @@ CHECKS = {
     ),
     "C06": (
         "explicit-state breadth-first search over sequences of assignments, DIM/ERASE, DEFtype, SWAP and CLEAR on a universe of scalar and array names (full-state digest), with a read-back of the whole universe after every transition compared with a reference store",
-        "All histories of depth 2 (thorough 3) over 371 statements and depth 3 (thorough 4) over a 159-statement core are executed; after the last step the statement's outcome and the values of all 11 scalar names and of every nameable / stored / corner / just-outside array element must equal the reference store (types via conversion on assignment, defaults, bounds, no aliasing, SWAP atomicity). Exhaustive within the depth bound.",
+        "All histories of depth 2 (thorough 3) over 379 statements and depth 3 (thorough 4) over a 163-statement core are executed; after the last step the statement's outcome and the values of all 11 scalar names and of every nameable / stored / corner / just-outside array element must equal the reference store (types via conversion on assignment, defaults, bounds, no aliasing, SWAP atomicity). Exhaustive within the depth bound.",
         "Reference refmodel/store.rs; values the manual leaves open after a DEFtype (type unchanged, value of another type) are left out of the read-back.",
         "DESIGN.md §3 C06",
     ),
@@ -122,7 +122,7 @@ CHECKS = {
     ),
     "C08": (
         "exhaustive enumeration of operand tuples (all 2^32 pairs per operator in the thorough tier) on the real Operation/Function entry points and through the VM, against an exact-arithmetic reference",
-        "Every Integer operator is run on every operand pair of the stated bound (quick: every row/column through 65 boundary values, all 65536 unary operands; thorough: all 2^32 pairs) and compared with exact i64 arithmetic; a wrapped value, a wrong error or a panic on any pair is reported. Exhaustive within the bound, which for the thorough tier is the whole input space of the property.",
+        "Every Integer operator is run on every operand pair of the stated bound (quick: every row/column through 65 boundary values, all 65536 unary operands; thorough: all 2^32 pairs) and compared with exact i64 arithmetic; boundary pairs also run through the interpreter, as expressions and as FOR..NEXT loops with Integer counters; a wrapped value, a wrong error or a panic on any pair is reported. Exhaustive within the bound, which for the thorough tier is the whole input space of the property.",
         "Trusts the harness's i64 reference (truncating division, sign-of-dividend MOD) and that VM dispatch adds nothing beyond what the boundary pairs through the interpreter exercise.",
         "DESIGN.md §3 C08",
     ),
